@@ -29,7 +29,12 @@ pub fn run_c02(ctx: &Ctx) {
             |c| crate::l3::run_case(c, crate::l3::Prop::C02),
         );
     }
-    run_l4_part(ctx, crate::l4::Prop::C02, crate::l4::gen::P { pause: 0, inject: 0, panic: 0, stop: 0, busy: 0, uds: false, max_limit: 3, taskpanic: 1, abort: 0, gate: 1, churn: 0 }, ctx.tier.scale(400, 4), &[("saturated-with-waiting", 0.2)], "every worker at its limit with a client still waiting");
+    run_l4_part(ctx, crate::l4::Prop::C02, crate::l4::gen::P { pause: 0, inject: 0, panic: 0, stop: 0, busy: 0, uds: true, max_limit: 3, taskpanic: 1, abort: 0, gate: 1, churn: 0 }, ctx.tier.scale(400, 4), &[("saturated-with-waiting", 0.2)], "every worker at its limit with a client still waiting");
+    {
+        use crate::l4;
+        let rule = format!("{RULE_L4}; every slot taken (1..2 workers x limit 1..2) with two more clients waiting, then 10.6 s in which nothing at all happens: no worker may hold more than its limit afterwards (the gauge inside Service::call and the number of greeted clients); non-trivial = every case");
+        ctx.run_random(Part::new("l4-long-idle", &rule, ctx.tier.scale(4, 3)).floors(&[("saturated-and-quiet-for-10s", 0.9)]).shards(8).shrink_iters(1), l4::gen::long_idle_strategy, move |c| l4::run_case(c, l4::Prop::C02));
+    }
 }
 
 pub fn replay_c02(ctx: &Ctx, v: &Value) -> i32 {
@@ -85,7 +90,7 @@ pub fn run_c03(ctx: &Ctx) {
     run_l2_part(ctx, "l2-with-faults", Prop::C03, P_C03_FAULT, ctx.tier.scale(120_000, 10),
         &[("fault-discovered", 0.4), ("finish-while-saturated-with-backlog", 0.1), ("replace", 0.3)],
         "as above, in histories where a worker died and was replaced (a live worker below its limit must still be used)");
-    run_l4_part(ctx, crate::l4::Prop::C03, crate::l4::gen::P { pause: 0, inject: 0, panic: 0, stop: 0, busy: 0, uds: false, max_limit: 3, taskpanic: 2, abort: 0, gate: 0, churn: 0 }, ctx.tier.scale(400, 4), &[("release-while-saturated", 0.2), ("handler-panic-while-saturated", 0.08)], "a held connection is released while every worker is at its limit and a client waits");
+    run_l4_part(ctx, crate::l4::Prop::C03, crate::l4::gen::P { pause: 0, inject: 0, panic: 0, stop: 0, busy: 0, uds: true, max_limit: 3, taskpanic: 2, abort: 0, gate: 0, churn: 0 }, ctx.tier.scale(400, 4), &[("release-while-saturated", 0.2), ("handler-panic-while-saturated", 0.08)], "a held connection is released while every worker is at its limit and a client waits");
     {
         use crate::l4;
         let rule = format!("{RULE_L4}; runs of 500..3000 connections made one after the other on 1..2 workers with limit 1..2, each closed by the client once greeted, while a second thread sends resume() commands without pause (worker releases and commands race in the accept thread's waker queue); every connection must be greeted within the bound; non-trivial = every case");
@@ -261,6 +266,8 @@ pub fn run_c08(ctx: &Ctx) {
         use crate::l4;
         let rule = format!("{RULE_L4}; non-trivial = 17 or more workers were dead before the accept thread noticed the first fault (one burst of fault reports); every one is replaced (one service instantiation per listening socket and fault), and two rounds of connections made one after the other reach every replacement");
         ctx.run_random(Part::new("l4-all-workers-fault", &rule, ctx.tier.scale(24, 5)).floors(&[(">=17-workers-dead-at-once", 0.4)]).shards(8).shrink_iters(6), l4::gen::panic_all_strategy, move |c| l4::run_case(c, l4::Prop::C08));
+        let rule2 = format!("{RULE_L4}; 3 workers; the service factory refuses the first instantiation after the initial ones (the first faulted worker cannot be replaced and the server goes on with two), then 2..4 more faults with 0..3 connections in between: every later fault is followed by a replacement (one instantiation per listening socket) and service resumes; non-trivial = a refused replacement followed by another fault");
+        ctx.run_random(Part::new("l4-restart-refused", &rule2, ctx.tier.scale(24, 5)).floors(&[("replacement-refused-by-factory", 0.8)]).shards(8).shrink_iters(6), l4::gen::restart_refused_strategy, move |c| l4::run_case(c, l4::Prop::C08));
     }
 }
 
@@ -340,6 +347,8 @@ pub mod l3gen {
             1 => (sel(), any::<u8>()).prop_map(|(l, n)| vec![Op::DispatchBurst { l, n }, Op::Poll]),
             // the worker parks idle, a service turns pending / failing without a call in between, then a connection arrives
             2 => (sel(), sel(), sel()).prop_map(|(s, l, s2)| vec![Op::Poll, Op::MakePending { s }, Op::Dispatch { l }, Op::Poll, Op::MakeReady { s: s2 }, Op::Poll]),
+            // several connections queued at once (with a service that changes its readiness by being called: after_call)
+            2 => (sel(), sel(), sel(), sel()).prop_map(|(l, l2, l3, s)| vec![Op::Dispatch { l }, Op::Dispatch { l: l2 }, Op::Dispatch { l: l3 }, Op::Poll, Op::MakeReady { s }, Op::Poll, Op::MakeReady { s }, Op::Poll]),
             // a re-creation that takes its time
             1 => (sel(), sel()).prop_map(|(s, l)| vec![Op::HoldFactory { s }, Op::FailNext { s }, Op::Poll, Op::Dispatch { l }, Op::Poll, Op::ReleaseFactory { s }, Op::Poll]),
             // a graceful stop with a connection queued behind a service that is not ready: the
@@ -352,8 +361,9 @@ pub mod l3gen {
             prop::collection::vec(prop_oneof![3 => Just(SvcState::Ready), 1 => Just(SvcState::Pending)], 3),
             prop::collection::vec(op, 1..10),
             prop_oneof![2 => Just(8usize), 1 => Just(200usize)],
+            prop_oneof![3 => Just(vec![]), 2 => prop::collection::vec(prop_oneof![1 => Just(0u8), 2 => Just(1u8), 1 => Just(2u8)], 3)],
         )
-            .prop_map(|(services, factory_delay, initial, ops, limit)| Case { services, limit, shutdown_timeout_s: 30, factory_delay, initial, ops: ops.into_iter().flatten().collect() })
+            .prop_map(|(services, factory_delay, initial, ops, limit, after_call)| Case { services, limit, shutdown_timeout_s: 30, factory_delay, initial, ops: ops.into_iter().flatten().collect(), after_call })
     }
 
     /// C02 at the worker: small limits, many connections, readiness failures (service restarts
@@ -377,7 +387,7 @@ pub mod l3gen {
             prop::collection::vec(0u8..3, 3),
             prop::collection::vec(op, 1..8),
         )
-            .prop_map(|(services, limit, factory_delay, ops)| Case { services, limit, shutdown_timeout_s: 30, factory_delay, initial: vec![SvcState::Ready; 3], ops: ops.into_iter().flatten().collect() })
+            .prop_map(|(services, limit, factory_delay, ops)| Case { services, limit, shutdown_timeout_s: 30, factory_delay, initial: vec![SvcState::Ready; 3], ops: ops.into_iter().flatten().collect(), after_call: vec![] })
     }
 
     pub fn c06_strategy() -> impl Strategy<Value = Case> {
@@ -412,7 +422,7 @@ pub mod l3gen {
                     ops.push(Op::Stop { graceful });
                 }
                 ops.extend(post);
-                Case { services, limit: 8, shutdown_timeout_s, factory_delay: vec![0; 3], initial: vec![SvcState::Ready; 3], ops }
+                Case { services, limit: 8, shutdown_timeout_s, factory_delay: vec![0; 3], initial: vec![SvcState::Ready; 3], ops, after_call: vec![] }
             })
     }
 }
@@ -429,9 +439,17 @@ pub fn run_c07(ctx: &Ctx) {
         l3gen::c07_strategy,
         |c| l3::run_case(c, l3::Prop::C07),
     );
+    {
+        use crate::l4;
+        let rule = format!("{RULE_L4}; one worker (limit 12), 1..2 listeners; the services stop reporting readiness, 3..8 clients connect one after the other, readiness returns: per listener the service is called for them in connect order; non-trivial = at least 3 of them on one listener");
+        ctx.run_random(Part::new("l4-order", &rule, ctx.tier.scale(64, 4)).floors(&[(">=3-queued-connections-order-checked", 0.5)]).shards(8).shrink_iters(6), l4::gen::order_strategy, move |c| l4::run_case(c, l4::Prop::C07));
+    }
 }
 
 pub fn replay_c07(ctx: &Ctx, v: &Value) -> i32 {
+    if v["part"].as_str().unwrap_or("").starts_with("l4") {
+        return replay_l4(ctx, v, crate::l4::Prop::C07);
+    }
     ctx.replay::<crate::l3::Case>(v, |c| crate::l3::run_case(c, crate::l3::Prop::C07))
 }
 
@@ -447,7 +465,7 @@ pub fn run_c06(ctx: &Ctx) {
         l3gen::c06_strategy,
         |c| l3::run_case(c, l3::Prop::C06),
     );
-    run_l4_part(ctx, crate::l4::Prop::C06, crate::l4::gen::P { pause: 1, inject: 0, panic: 0, stop: 1, busy: 2, uds: false, max_limit: 3, taskpanic: 1, abort: 0, gate: 1, churn: 0 }, ctx.tier.scale(96, 4), &[("worker-thread-busy", 0.04), ("stop-with-held-connections", 0.25), ("graceful-stop", 0.2), ("forced-stop", 0.2)], "a stop was issued while connections were held open");
+    run_l4_part(ctx, crate::l4::Prop::C06, crate::l4::gen::P { pause: 1, inject: 0, panic: 0, stop: 1, busy: 2, uds: true, max_limit: 3, taskpanic: 1, abort: 0, gate: 1, churn: 0 }, ctx.tier.scale(96, 4), &[("worker-thread-busy", 0.04), ("stop-with-held-connections", 0.25), ("graceful-stop", 0.2), ("forced-stop", 0.2)], "a stop was issued while connections were held open");
     // the accept thread's part: a stop command queued behind other commands is processed (the
     // server joins the accept thread, so a stop it never sees never completes)
     run_l2_part(ctx, "l2-commands", Prop::C06, P_C06, ctx.tier.scale(40_000, 10), &[("stop", 0.25), ("ctl-burst", 0.2)],
